@@ -4003,6 +4003,15 @@ def plain_column_projection(expr, parent, dependents, additional_columns=None):
         # we are accessing the index
         column_union = []
 
+    if (
+        not isinstance(column_union, list)
+        and expr.frame.ndim == 2
+        and any(_is_column_keyed(op) for op in expr.operands[1:])
+    ):
+        # Another operand is matched against the columns of the frame (e.g. the
+        # condition of where or the dict of fillna), it has to stay a DataFrame
+        column_union = [column_union]
+
     if column_union == expr.frame.columns or not column_union and expr.ndim < 2:
         # this projection is for the index, but the elements are unknown, so
         # don't project
@@ -4011,6 +4020,16 @@ def plain_column_projection(expr, parent, dependents, additional_columns=None):
     if column_union == parent.operand("columns"):
         return result
     return type(parent)(result, parent.operand("columns"))
+
+
+def _is_column_keyed(operand):
+    if isinstance(operand, Expr):
+        return operand.ndim == 2
+    return (
+        isinstance(operand, dict)
+        or is_dataframe_like(operand)
+        or is_series_like(operand)
+    )
 
 
 def is_filter_pushdown_available(expr, parent, dependents, allow_reduction=True):
